@@ -246,6 +246,9 @@ func objLines(o *Obj, ind string) []string {
 			comma = ""
 		}
 		key := fmt.Sprintf("%s  %q: ", ind, p.Key)
+		if p.KeyRef {
+			key = fmt.Sprintf("%s  %s: ", ind, p.Key)
+		}
 		var rules []string
 		val := ""
 		switch p.V.Kind {
@@ -267,6 +270,12 @@ func objLines(o *Obj, ind string) []string {
 		case "typed":
 			val = fmt.Sprint(p.V.Int)
 			rules = append(rules, fmt.Sprintf("type: %q", p.V.Ref))
+		case "arrobj":
+			sub := objLines(p.V.Obj, ind+"    ")
+			lines = append(lines, key+"[")
+			lines = append(lines, sub...)
+			lines = append(lines, ind+"  ]"+comma)
+			continue
 		case "obj":
 			sub := objLines(p.V.Obj, ind+"  ")
 			sub[0] = key + strings.TrimLeft(sub[0], " ")
